@@ -196,14 +196,15 @@ impl Recorder {
         }
     }
     pub fn fail(&mut self, signature: &str, what: String) {
-        if self.spec_failures.len() < 200 {
+        // keep the first failures of EACH signature, so that a frequent (e.g. known) one cannot crowd out another
+        if self.spec_failures.iter().filter(|f| f.signature == signature).count() < 40 && self.spec_failures.len() < 2000 {
             let replay = self.current.clone();
             self.spec_failures.push(SpecFailure { signature: signature.to_string(), what, replay });
         }
         self.count(&format!("spec_failure:{}", signature));
     }
     pub fn fail_with(&mut self, signature: &str, what: String, replay: Vec<String>) {
-        if self.spec_failures.len() < 200 {
+        if self.spec_failures.iter().filter(|f| f.signature == signature).count() < 40 && self.spec_failures.len() < 2000 {
             self.spec_failures.push(SpecFailure { signature: signature.to_string(), what, replay });
         }
         self.count(&format!("spec_failure:{}", signature));
